@@ -871,7 +871,166 @@ def gen_cases(rng, tier):
         spk("rand-bech32-string", 0, rng.choice([b"bc1", b"tb1", b"bcrt1"]) + bytes(rng.choice(CHARSET.encode()) for _ in range(rng.randrange(0, 60))))
     _gen_congruent(rng, T, out)
     _gen_cli(rng, T, out, pts, b58_addrs, seg_addrs)
+    _gen_numeral_and_text(rng, T, out)
     return out
+
+
+def carry_cancelling_edits(s, alphabet, top_lenient, bad_chars):
+    """two-character edits of a positional numeral that leave its VALUE unchanged for a parser whose digit lookup is
+    lenient: digit d followed by the top digit  ->  d+1 followed by a non-alphabet character (read as -1 by a
+    find()-style lookup);  digit d followed by the zero digit  ->  d-1 followed by a character a lenient lookup might
+    read as the radix (the byte after the top digit, ...).  Every result contains a non-alphabet character."""
+    top, zero = alphabet[-1], alphabet[0]
+    out = []
+    for i in range(len(s) - 1):
+        d = alphabet.find(s[i:i + 1])
+        if d < 0:
+            continue
+        if s[i + 1] == top and d + 1 < len(alphabet):
+            for b in bad_chars:
+                out.append(("minus1", s[:i] + alphabet[d + 1:d + 2] + b + s[i + 2:]))
+        if s[i + 1] == zero and d >= 1:
+            for b in top_lenient:
+                out.append(("radix", s[:i] + alphabet[d - 1:d] + b + s[i + 2:]))
+    return out
+
+
+def _gen_numeral_and_text(rng, T, out):
+    spk = lambda cls, data: out.append(case(cls, "scriptpubkey", 0, data, strict=True))
+
+    def send(cls, data):
+        out.append(case(cls, "send_recipient", data, strict=True))
+        out.append(case(cls, "send_change", data, strict=True))
+        if b"\0" not in data and data[:1] != b"-":
+            out.append(case(cls, "cli_send_recipient", data))
+            out.append(case(cls, "cli_send_change", data))
+
+    # ---------- (d) numeral tricks on Base58Check addresses: every kind x network, at every position where possible
+    BAD58 = [b"0", b"O", b"I", b"l", b" ", b"\xff", b"\0", b"-", b"_", b"+", b"/", b"\n"]
+    RADIX58 = [b"{", b":", b"[", b"`", b"\x7f"]
+    per = 3 if T else 1
+    k = 0
+    for net in NETS:
+        for ty in ("p2pkh", "p2sh"):
+            found = 0
+            for _ in range(400):
+                if found >= per:
+                    break
+                h = rng.randbytes(20) if rng.random() < 0.8 else bytes(rng.randrange(1, 4)) + rng.randbytes(17)
+                a_ = ref_b58check(bytes([VERSION[(ty, net)]]) + h)[:34]
+                eds = carry_cancelling_edits(a_, B58, RADIX58, BAD58)
+                if not any(kind == "minus1" for kind, _ in eds):
+                    continue
+                found += 1
+                spk("b58-valid", a_)
+                for kind, e in (eds if T else rng.sample(eds, min(len(eds), 14))):
+                    spk("b58-carry-cancel-" + kind, e)
+                kind, e = rng.choice([x for x in eds if x[0] == "minus1"])
+                send("send-b58-carry-cancel", e)
+                k += 1
+    # the same trick on the characters of the checksum and of the version (first) character, and twice in one string
+    for _ in range(30 if T else 6):
+        a_ = ref_b58check(bytes([rng.choice(P2PKH_VERSIONS + P2SH_VERSIONS)]) + rng.randbytes(20))
+        eds = [e for kind, e in carry_cancelling_edits(a_, B58, RADIX58, BAD58[:4]) if kind == "minus1"]
+        for e in eds[-2:]:
+            eds2 = [e2 for kind, e2 in carry_cancelling_edits(e, B58, RADIX58, BAD58[:2]) if kind == "minus1"]
+            for e2 in eds2[:1]:
+                spk("b58-carry-cancel-twice", e2)
+    # ---------- the same on segwit addresses (charset.find): data part, lower and upper case
+    BAD32 = [b"b", b"i", b"o", b"1", b"B", b" ", b"\xff", b"-"]
+    RADIX32 = [b"m", b"{", b"0"]
+    for _ in range(24 if T else 8):
+        v = rng.randrange(17)
+        L = rng.choice((20, 32)) if v == 0 else rng.randrange(2, 41)
+        hrp = rng.choice(["bc", "tb", "bcrt"])
+        a_ = ref_segwit_encode(hrp, v, rng.randbytes(L))
+        pos = a_.rindex(b"1") + 1
+        eds = carry_cancelling_edits(a_[pos:], CHARSET.encode(), RADIX32, BAD32)
+        for kind, e in (eds if T else rng.sample(eds, min(len(eds), 8))):
+            spk("seg-carry-cancel-" + kind, a_[:pos] + e)
+        if eds:
+            kind, e = rng.choice(eds)
+            spk("seg-carry-cancel-upper", (a_[:pos] + e).upper())
+            send("send-seg-carry-cancel", a_[:pos] + e)
+    # ---------- address LENGTH extremes: hashes with every number of leading zero bytes 0..20 (a mainnet P2PKH address
+    #            shrinks to 26 characters for 00..00 01 .. 00..00 08; the all-zero hash gives 27), values just below /
+    #            at a power of 58 in the last bytes, all kinds x networks
+    for net in NETS:
+        for ty in ("p2pkh", "p2sh"):
+            for z in range(0, 21):
+                h = bytes(z) + (bytes([rng.randrange(1, 256)]) + rng.randbytes(19 - z) if z < 20 else b"")
+                out.append(case("b58-lead0-%s" % ("19" if z == 19 else "20" if z == 20 else "n"), "addr_script", 0, h, ty, net, None, strict=True))
+            for last in list(range(1, 10)) + [57, 58, 59, 255]:
+                h = bytes(19) + bytes([last])
+                out.append(case("b58-shortest", "addr_script", 0, h, ty, net, None, strict=True))
+                if net == "mainnet" or last < 3:
+                    a_ = ref_b58check(bytes([VERSION[(ty, net)]]) + h)
+                    spk("b58-shortest", a_)
+                    if last in (1, 8, 9):
+                        send("send-b58-shortest", a_)
+            for tail in (b"\x01\x00", b"\x0d\x24", b"\x0d\x23", b"\xff\xff", b"\x00\x01\x00"):
+                out.append(case("b58-short", "addr_script", 0, bytes(20 - len(tail)) + tail, ty, net, None, strict=True))
+
+    # ---------- (b) non-ASCII look-alikes that Unicode case mapping / NFKD turn into address characters
+    LOOK = {ord("k"): "\u212a".encode(), ord("K"): "\u212a".encode(), ord("s"): "\u017f".encode(),
+            ord("q"): "\uff51".encode(), ord("p"): "\uff50".encode(), ord("3"): "\uff13".encode(),
+            ord("1"): "\uff11".encode(), ord("A"): "\uff21".encode(), ord("c"): "\uff43".encode()}
+    cands = [ref_segwit_encode("bc", 0, rng.randbytes(20)), ref_segwit_encode("tb", 1, rng.randbytes(32)),
+             ref_b58check(b"\x00" + rng.randbytes(20)), ref_b58check(b"\x05" + rng.randbytes(20)),
+             ref_segwit_encode("bcrt", 16, rng.randbytes(2)).upper()]
+    for a_ in cands:
+        idx = [i for i, ch in enumerate(a_) if ch in LOOK]
+        for i in (idx if T else idx[:3]):
+            e = a_[:i] + LOOK[a_[i]] + a_[i + 1:]
+            spk("addr-unicode-lookalike", e)
+        if idx:
+            send("send-unicode-lookalike", a_[:idx[0]] + LOOK[a_[idx[0]]] + a_[idx[0] + 1:])
+
+    # ---------- (b) payloads that look like a text encoding of themselves / like another format
+    HEXL, HEXU, DIG = b"0123456789abcdef", b"0123456789ABCDEF", b"0123456789"
+    TEXT = b"abcdefghijklmnopqrstuvwxyzABCDEFGHIJKLMNOPQRSTUVWXYZ0123456789 .,:-_/+="
+    kinds = [("hex", HEXL), ("HEX", HEXU), ("digits", DIG), ("text", TEXT), ("hexmixed", HEXL + b"ABCDEF")]
+    cmodes = ["raw", "file-raw", "rawword", "hex", "bin"]
+    j = 0
+    for L in list(range(2, 41)) + [64]:
+        for name, alpha in (kinds if T or L in (20, 32, 40, 64) else [kinds[L % len(kinds)], kinds[(L + 2) % len(kinds)]]):
+            prog = bytes(rng.choice(alpha) for _ in range(L))
+            v = 1 + (L + j) % 16
+            net = NETS[j % 3]
+            out.append(case("payload-textlike-" + name, "addr_script", 0, prog, rng.choice(("p2pkh", "p2sh")), net, v, strict=True))
+            if L in (20, 32, 40, 64) or j % 3 == 0:
+                out.append(case("payload-textlike-" + name, "cli_addr", prog, None, net, v, cmodes[j % len(cmodes)]))
+            if L in (20, 32, 40, 64):
+                out.append(case("payload-textlike-v0-" + name, "addr_script", 0, prog, "p2pkh", net, 0, strict=True))
+                out.append(case("payload-textlike-v0-" + name, "cli_addr", prog, None, net, 0, cmodes[(j + 1) % len(cmodes)]))
+            j += 1
+    # hashes: 20 bytes of hex digits / text, and the 40-character hex TEXT of a hash where a hash is expected
+    for ty in ("p2pkh", "p2sh"):
+        for name, alpha in kinds:
+            h = bytes(rng.choice(alpha) for _ in range(20))
+            net = rng.choice(NETS)
+            out.append(case("hash-textlike-" + name, "addr_script", 0, h, ty, net, None, strict=True))
+            out.append(case("hash-textlike-" + name, "cli_addr", h, ty, net, None, rng.choice(("raw", "file-raw"))))
+        hx = rng.randbytes(20).hex().encode()
+        out.append(case("hash-as-hex-text", "addr_script", 0, hx, ty, rng.choice(NETS), None, strict=True))
+        out.append(case("hash-as-hex-text", "cli_addr", hx, ty, rng.choice(NETS), None, "raw"))
+        out.append(case("hash-as-hex-text", "cli_addr", hx.upper(), ty, rng.choice(NETS), None, "file-raw"))
+    for v in (0, 1, 16):
+        for n_ in (20, 32):
+            hx = rng.randbytes(n_).hex().encode()
+            out.append(case("program-as-hex-text", "to_bitcoin_address", hx, "p2pkh", rng.choice(NETS), v, strict=True))
+            out.append(case("program-as-hex-text", "addr_script", 0, hx.upper(), "p2sh", rng.choice(NETS), v, strict=True))
+            out.append(case("program-as-hex-text", "cli_addr", hx, None, rng.choice(NETS), v, "raw"))
+    # payloads equal to the beginning of another format: an address, a script template, an armor line, an xpub
+    other = [ref_segwit_encode("bc", 0, bytes(20))[:40], ref_b58check(b"\x00" + bytes(20))[:34], tpl_p2pkh(rng.randbytes(20)),
+             tpl_p2sh(rng.randbytes(20)), tpl_witness(0, rng.randbytes(20)), tpl_witness(1, rng.randbytes(32)),
+             b"-----BEGIN PUBLIC KEY-----", b"xpub661MyMwAqRbcF", b"0x" + rng.randbytes(9).hex().encode(), b"\x02" + rng.randbytes(32),
+             b"\x04" + rng.randbytes(39), b"OP_DUP OP_HASH160", b"\x00" * 2, b"\x14" + rng.randbytes(20), b"bc1q", b"1" * 20]
+    for o in other:
+        v = rng.randrange(1, 17)
+        out.append(case("payload-looks-like-format", "addr_script", 0, o[:40], "p2pkh", rng.choice(NETS), v, strict=True))
+        out.append(case("payload-looks-like-format", "addr_script", 0, (o + bytes(20))[:20], rng.choice(("p2pkh", "p2sh")), rng.choice(NETS), None, strict=True))
+        out.append(case("payload-looks-like-format", "cli_addr", o[:40], None, rng.choice(NETS), v, rng.choice(("raw", "file-raw"))))
 
 
 def tiny_y_points(count):
